@@ -216,5 +216,74 @@ def gen_history(rng, header, nops, malformed=0.2, stats=None):
         stats["hist_with_granted_cancel"] += 1 if any(t.state == "cancelled" for t in toks) else 0
     return ops, lines
 
+def gen_flow_history(rng, header, nops, stats=None):
+    """Belt families: a long, well-formed producer / consumer flow (one or two producers, one or two consumers with random
+    think times), driven event by event.  No malformed calls; this is the stream that keeps several items on the belt,
+    builds queues behind a waiting head and releases them."""
+    impl = make_impl(header)
+    family = header.split()[1]
+    ops, lines = [], []
+    nprod = rng.choice([1, 1, 2]); ncons = rng.choice([1, 1, 2])
+    p_put = rng.choice([0.25, 0.5, 0.8]); p_get = rng.choice([0.05, 0.15, 0.4, 0.8])
+    hold = rng.choice([0.0, 0.0, 0.2])                    # a granted token is sometimes held for a while
+    ptok = {a: None for a in range(nprod)}                # actor -> (tid, state)
+    ctok = {a: None for a in range(10, 10 + ncons)}
+    next_item = [0]; toks = []
+    def emit(op):
+        line = impl.do(op); ops.append(op); lines.append(line)
+        if stats is not None:
+            stats["ops"][op[0]] = stats["ops"].get(op[0], 0) + 1
+            if line.startswith("err"):
+                e = line.split()[1]; stats["errors"][e] = stats["errors"].get(e, 0) + 1
+        if line.startswith("tok "):
+            toks.append("pending")
+        if "|" in line:
+            for x in line.split("|")[1].split():
+                toks[int(x.split('@')[0])] = "granted"
+        return line
+    def kernel_move():
+        nt = impl.next_time(); nowt = f2t(impl.env.now)
+        if nt is not None and (nt <= nowt or rng.random() < 0.7): return ("ev",)
+        d = rng.choice([1, 1, 2, 3, 5, 8])
+        if nt is not None: return ("adv", min(d, nt - nowt))
+        return ("adv", d)
+    while len(ops) < nops:
+        r = rng.random()
+        if r < 0.30:
+            a = rng.randrange(nprod)
+            if ptok[a] is None:
+                line = emit(("rp", a, 0))
+                if line.startswith("tok "): ptok[a] = int(line.split()[1])
+            elif toks[ptok[a]] == "granted" and rng.random() < p_put and rng.random() >= hold:
+                i = next_item[0]; next_item[0] += 1
+                emit(("put", a, ptok[a], i, 0, 0)); ptok[a] = None
+                if family == "cbelt" and rng.random() < 0.6:
+                    n = 0
+                    while impl.urgent_pending() and n < 50: emit(("ev",)); n += 1
+            elif rng.random() < 0.03:
+                emit(("cp", ptok[a])); ptok[a] = None
+            else:
+                emit(kernel_move())
+        elif r < 0.55:
+            a = 10 + rng.randrange(ncons)
+            if ctok[a] is None:
+                if rng.random() < p_get:
+                    line = emit(("rg", a, 0, "always"))
+                    if line.startswith("tok "): ctok[a] = int(line.split()[1])
+                else: emit(kernel_move())
+            elif toks[ctok[a]] == "granted" and rng.random() < 0.7 and rng.random() >= hold:
+                emit(("get", a, ctok[a])); ctok[a] = None
+            elif rng.random() < 0.04:
+                emit(("cg", ctok[a])); ctok[a] = None
+            else:
+                emit(kernel_move())
+        elif r < 0.97:
+            emit(kernel_move())
+        else:
+            emit(("probe", rng.choice(["occ", "ready", "mode", "pat", "stuck"] if family == "cbelt" else ["occ", "ready", "mode"])))
+    if stats is not None:
+        stats["hist_with_pending"] += 1 if "pending" in toks else 0
+    return ops, lines
+
 def new_stats():
     return {"ops": {}, "errors": {}, "hist_with_pending": 0, "hist_with_granted_cancel": 0}
